@@ -618,9 +618,16 @@ fn ws_exec(cx: &WsCtx, scn: &Scn, plan: &Plan) -> WsOut {
             let class = plan_class(plan, &out.applied);
             let shape: String = {
                 // cause class of the input: which kinds of message are in the list
-                let mut k: Vec<&str> = scn.msgs.iter().map(|m| SYM_NAME[*m as usize]).collect();
-                k.sort();
-                k.dedup();
+                let mut k: Vec<&str> = Vec::new();
+                if scn.msgs.iter().any(|m| *m < PING) {
+                    k.push("data");
+                }
+                if scn.msgs.contains(&PING) {
+                    k.push("ping");
+                }
+                if scn.msgs.contains(&CLOSE) {
+                    k.push("close");
+                }
                 k.join("+")
             };
             let key = format!("ws:{}:{}:{}:{}", scn.class(), oracle, if shape.is_empty() { "empty".into() } else { shape }, class);
@@ -755,7 +762,14 @@ pub fn replay(r: &Value, plan: &Plan) -> ! {
     for l in &out.trace {
         println!("{l}");
     }
-    println!("scenario {}, plan [{}], applied {:?}", scn.name(), plan_text(plan), out.applied);
+    println!(
+        "scenario {}, plan [{}], applied {:?}; relay forwarded {} bytes client->server and {} bytes server->client",
+        scn.name(),
+        plan_text(plan),
+        out.applied,
+        out.forwarded[0],
+        out.forwarded[1]
+    );
     match judge_ws(&scn, &out) {
         Ok(sig) => {
             println!("HELD: {sig}");
